@@ -183,6 +183,14 @@ def b_key_init(tier, rnd):
             "cases": [(Key.__new__(Key), k) for k in ks]}
 
 
+@battery("unison_notes")
+def b_unison_notes(tier, rnd):
+    from contracts.core_keys import KEYS30
+    texts = list(KEYS30) + all_names(2) + ["H", "c", "C-4", "#C", " C", "Cm", "?", "c##"]
+    return {"rule": "30 keys + every name with <= 2 accidentals + 8 malformed texts, key argument omitted and None",
+            "cases": [(t,) for t in texts] + [(t, None) for t in texts]}
+
+
 @battery("lists")
 def b_lists(tier, rnd):
     cases = [([],), (["C"],), (["C", "E"],), (["C", "E", "G"],), ([1, 2, 3, 4, 5],), (["a"] * 4 + ["b"],)]
